@@ -19,6 +19,7 @@
     {"name": "client", "defs": ["SERVER=0"]},
     {"name": "server", "defs": ["SERVER=1"]}
   ],
+  "solver": "cadical",
   "native_replay": true,
   "timeout": 300
 }
